@@ -296,7 +296,9 @@ fn corpus() -> Vec<(ASchema, ADoc, Opts, &'static str)> {
         frags: vec![],
     };
     let both = |r: &str, v: &str, rust: bool| Opts { response_derives: Some(r.into()), variables_derives: Some(v.into()), normalization_rust: rust, ..Opts::default() };
-    vec![
+    // every fragment-recursion pattern of C12 must compile too (Box on every by-value cycle)
+    let mut fixed: Vec<(ASchema, ADoc, Opts, &'static str)> = super::c12::fragment_cases().into_iter().map(|g| (g.schema, g.doc, Opts::default(), "")).collect();
+    fixed.extend(vec![
         (enum_schema.clone(), enum_doc.clone(), both("Debug, Clone", "Debug, Clone", false), ""),
         (enum_schema.clone(), enum_doc.clone(), both("Debug,PartialEq,Clone", "Clone,Debug", true), ""),
         (enum_schema.clone(), enum_doc.clone(), both("Serialize,Debug", "Deserialize,Debug", false), ""),
@@ -305,7 +307,8 @@ fn corpus() -> Vec<(ASchema, ADoc, Opts, &'static str)> {
         (schema.clone(), doc(vec![], vec![fld("a", vec![fld("friend", vec![fld("name", vec![])])]), fld("aB", vec![fld("name", vec![])]), ASel::Field { alias: Some("aFriend".into()), name: "dog".into(), sub: vec![fld("name", vec![])] }], vec![]), Opts::default(), "selection-paths-concatenate-to-one-type-name"),
         (schema.clone(), doc(vec![], vec![fld("animal", vec![ASel::Typename, fld("on", vec![]), ASel::Inline { on: "Dog".into(), sub: vec![fld("name", vec![])] }])], vec![]), Opts::default(), "field-named-on-next-to-variant-selection"),
         (schema.clone(), ADoc { ops: vec![AOp { kind: "query", name: "list_items".into(), vars: vec![], sels: vec![fld("echo", vec![])] }], frags: vec![] }, Opts::default(), "operation-name-equals-its-module-name"),
-    ]
+    ]);
+    fixed
 }
 
 pub fn run(a: &Args) -> i32 {
